@@ -439,7 +439,15 @@ func (w *worker[T, JobType]) goListenToContext() {
 	go func(c context.Context) {
 		<-c.Done()
 
-		w.Stop()
+		// Restart cancels the previous run's context only to end this
+		// goroutine; the worker is stopped only if c is still its context
+		w.mx.RLock()
+		current := w.ctx == c
+		w.mx.RUnlock()
+
+		if current {
+			w.Stop()
+		}
 	}(ctx)
 }
 
